@@ -241,6 +241,11 @@ pub fn exact_alphabet(kind: crate::subjects::Kind) -> Vec<Op> {
     } else {
         v.extend([Op::S(1.0), Op::S(0.0), Op::S(-1.0), Op::S(3.0)]);
     }
+    if kind.has_scalar() {
+        // both zeros: equal under ==, different bits (cached-extreme indices may legitimately differ,
+        // outputs of a clone may not)
+        v.push(Op::S(-0.0));
+    }
     v.push(Op::Reset);
     v
 }
@@ -257,7 +262,11 @@ pub fn run_all(ctx: &Ctx, prop: &'static str, fork: Fork, periods: &[usize], tup
     let outs = par_run(ctx, &cfgs, |_, cfg| {
         let mut out = JobOut::default();
         let alphabet = exact_alphabet(cfg.kind);
-        let cont: Vec<Op> = alphabet.iter().copied().filter(|o| !matches!(o, Op::Reset)).take(3).collect();
+        let mut cont: Vec<Op> = alphabet.iter().copied().filter(|o| !matches!(o, Op::Reset)).take(3).collect();
+        if cfg.kind.has_scalar() {
+            cont.push(Op::S(-0.0));
+            cont.push(Op::S(-5.0));
+        }
         let r = lifecycle_graph(ctx, prop, cfg, &alphabet, &cont, fork, max_states, max_depth, &mut out);
         out.stats.sample(|| format!("{} {:?} graph over {} symbols: {} states, depth {}, fixpoint {}", cfg.descr(), fork, alphabet.len(), r.states, r.depth, r.fixpoint));
         (out, r)
